@@ -157,6 +157,7 @@ const (
 	cbKeyCompare // always installed on reopen when any non-default comparator name is used
 	cbChunked    // values live in memory in chunks: Val is the first chunk, the rest hangs off Transient
 	cbTransform  // BeforeItemWrite encodes the value (XOR), AfterItemRead decodes it: an inverse pair
+	cbPartialCmp // the load-time comparator callback answers only for names starting with 'r' (nil otherwise); the application installs the rest with SetCollection after every open
 	cbNoKeyCmp   // NO KeyCompareForCollection callback: after every open the application installs the comparators itself with SetCollection on the existing names (the documented pattern)
 )
 
@@ -186,7 +187,15 @@ func fullVal(i *gkvlite.Item) []byte {
 
 func (w *World) callbacks() gkvlite.StoreCallbacks {
 	cb := gkvlite.StoreCallbacks{}
-	if w.cfg&cbNoKeyCmp == 0 {
+	switch {
+	case w.cfg&cbPartialCmp != 0:
+		cb.KeyCompareForCollection = func(name string) gkvlite.KeyCompare {
+			if len(name) > 0 && name[0] == 'r' {
+				return cmpOfName(name)
+			}
+			return nil
+		}
+	case w.cfg&cbNoKeyCmp == 0:
 		cb.KeyCompareForCollection = func(name string) gkvlite.KeyCompare { return cmpOfName(name) }
 	}
 	if w.cfg&cbItemAlloc != 0 {
@@ -968,7 +977,7 @@ func openDigest(w *World, img []byte) (res string) {
 	if err != nil {
 		return errClass(err)
 	}
-	if w.cfg&cbNoKeyCmp != 0 {
+	if w.cfg&(cbNoKeyCmp|cbPartialCmp) != 0 {
 		for _, n := range st.GetCollectionNames() {
 			st.SetCollection(n, cmpOfName(n))
 		}
